@@ -234,6 +234,11 @@ def progress_ok(a, b):
 def _first_name_of_block(pat, b):
     return list(pat).index(b)
 
+def _em_view(em):
+    if not em: return None
+    def dh(h): return None if h is None else sorted(h['vals'])
+    return {'unchanged': em['unchanged'], 'matches': sorted(json.dumps({'bound': m['bound'], 'found': m['found'], 'inst': dh(m['inst']), 'binds': {k: dh(v) for k, v in m['binds'].items()}}, sort_keys=True) for m in em['matches'])}
+
 def observable_view(rec):
     """the part of a record that must not depend on how names sort (C11) - ids left out, class relation kept"""
     out = []
@@ -243,7 +248,7 @@ def observable_view(rec):
         out.append({'eq': st['eq'], 'nslots': [(c or {}).get('nslots') for c in st['canon']], 'vals': [(c or {}).get('vals') for c in st['canon']],
                     'gcount': [st['classes'].get(str((c or {}).get('id')), {}).get('gcount') for c in st['canon']],
                     'data': [st['classes'].get(str((c or {}).get('id')), {}).get('data') for c in st['canon']],
-                    'ematch': st.get('ematch'), 'probe': st.get('probe'), 'rewrite_ret': st.get('rewrite_ret'),
+                    'ematch': _em_view(st.get('ematch')), 'probe': st.get('probe'), 'rewrite_ret': st.get('rewrite_ret'), 'extract_cost': (st.get('extract') or {}).get('cost'),
                     'live': len(st['live']), 'nodes': st['nodes'], 'progress': st['progress'], 'same_class': rel,
                     'union_ret': st.get('union_ret'), 'check': (st.get('check') or {}).get('check')})
     return {'steps': out, 'panic': bool(rec.get('panic'))}
